@@ -662,6 +662,24 @@ def is_armed(p, fi, tgt):
                         and isinstance(n.value.func, ast.Attribute) and n.value.func.attr == 'event' for n in walk_no_nested(fi.node))
 
 
+def identity_test(e):
+    """(lhs text, rhs text) when the condition event establishes `lhs is rhs` on this path - `a is b` taken, or `a is not b` not taken - else None"""
+    if e.kind != 'cond' or e.d.get('synthetic'):
+        return None
+    t = e.text
+    if t.startswith('not'):
+        return None
+    if ' is not ' in t:
+        if e.polarity is False:
+            lhs, rhs = t.split(' is not ', 1)
+            return lhs.strip(), rhs.strip()
+        return None
+    if ' is ' in t and e.polarity is True:
+        lhs, rhs = t.split(' is ', 1)
+        return lhs.strip(), rhs.strip()
+    return None
+
+
 def scenario_rearm(p, fi, ps, sites):
     """For every wait `yield any_of([... persistent armed events ...])` and every persistent element X of the wait set, consider the
     wake-up scenario "X is triggered, the other persistent elements are not": every path compatible with that scenario must install a
@@ -709,10 +727,11 @@ def scenario_rearm(p, fi, ps, sites):
                             want = (t[:-len('.triggered')] == X)
                             if e.polarity != want:
                                 compatible = False
-                        elif ' is self.' in t and not t.startswith('not'):
-                            lhs, T = t.split(' is ', 1)
+                        elif (' is self.' in t or ' is not self.' in t) and not t.startswith('not'):
+                            negated = ' is not self.' in t
+                            lhs, T = [x_.strip() for x_ in (t.split(' is not ', 1) if negated else t.split(' is ', 1))]
                             if lhs in denotes and denotes[lhs] is not None:
-                                if e.polarity != (denotes[lhs] == T):
+                                if bool(e.polarity) != ((denotes[lhs] == T) != negated):
                                     compatible = False
                         elif t in denotes:
                             if e.polarity != (denotes[t] is not None):
@@ -754,8 +773,16 @@ def check_rearm(p, r):
             # (each armed attribute holds its own env.event() object)
             infeasible = False
             for i, e in enumerate(evs):
-                if e.kind == 'cond' and not e.d.get('synthetic') and e.polarity is True and ' is self.' in e.text and not e.text.startswith('not'):
-                    lhs, t_ = e.text.split(' is ', 1)
+                # `x is not self.T` taken (or `x is self.T` not taken) although x was just assigned self.T itself: infeasible as well
+                if e.kind == 'cond' and not e.d.get('synthetic') and not e.text.startswith('not') and \
+                        ((' is not ' in e.text and e.polarity is True) or (' is ' in e.text and ' is not ' not in e.text and e.polarity is False)):
+                    lhs_, rhs_ = [x.strip() for x in (e.text.split(' is not ', 1) if ' is not ' in e.text else e.text.split(' is ', 1))]
+                    last_ = next((x for x in reversed(evs[:i]) if x.kind == 'setattr' and x.target == lhs_), None)
+                    if last_ is not None and rhs_.startswith('self.') and value_path(last_.value) == rhs_:
+                        infeasible = True
+                idt = identity_test(e)
+                if idt is not None and idt[1].startswith('self.'):
+                    lhs, t_ = idt
                     last = next((x for x in reversed(evs[:i]) if x.kind == 'setattr' and x.target == lhs), None)
                     if last is not None and value_path(last.value) not in (None, t_):
                         infeasible = True
@@ -769,12 +796,13 @@ def check_rearm(p, r):
                 continue
             for i, e in enumerate(evs):
                 tgt = None
-                if e.kind == 'cond' and not e.d.get('synthetic') and e.polarity is True:
+                idt = identity_test(e)
+                if e.kind == 'cond' and not e.d.get('synthetic') and (e.polarity is True or idt is not None):
                     t = e.text
-                    if t.endswith('.triggered') and t.startswith('self.'):
+                    if e.polarity is True and t.endswith('.triggered') and t.startswith('self.'):
                         tgt = t[:-len('.triggered')]
-                    elif ' is self.' in t and not t.startswith('not'):
-                        lhs, tgt = t.split(' is ', 1)
+                    elif idt is not None and idt[1].startswith('self.'):
+                        lhs, tgt = idt
                         # `chosen is T` is infeasible when chosen was just assigned another armed attribute (distinct env.event() objects)
                         last = next((x for x in reversed(evs[:i]) if x.kind == 'setattr' and x.target == lhs), None)
                         if last is not None and value_path(last.value) not in (None, tgt):
